@@ -181,6 +181,15 @@ def run_case(case):
     return out
 
 
+def finalize(tier, merged):
+    """Thorough tier (or VERIF_FUZZ=1): coverage-guided atheris campaign with the well-formedness oracle inside the target."""
+    import os
+    if tier != "thorough" and not os.environ.get("VERIF_FUZZ"):
+        return {}
+    from ..fuzzrun import campaign
+    return campaign("C11", int(os.environ.get("VERIF_FUZZ_RUNS", "40000")))
+
+
 _MISSING = object()
 
 
